@@ -88,7 +88,7 @@ func randFilterString(rng *rand.Rand) string {
 }
 
 func randTopicString(rng *rand.Rand) string {
-	parts := []string{"a", "b", "", "é", "sensor", "c"}
+	parts := []string{"a", "b", "", "é", "sensor", "c", "$d", "$", "d$"}
 	n := 1 + rng.Intn(5)
 	var ls []string
 	for i := 0; i < n; i++ {
@@ -153,6 +153,12 @@ func init() {
 					continue
 				}
 				for _, t := range topics {
+					emit(descBytes([]byte(f)) + " " + descBytes([]byte(t)))
+				}
+			}
+			// `$` inside a topic (only a leading `$` of the whole topic is special, §4.7.2), against wildcards at that level
+			for _, t := range []string{"price/$usd", "a/$", "a/$b/c", "a/b$", "a/b/$SYS", "x/$/y"} {
+				for _, f := range []string{"price/+", "a/+", "a/+/c", "a/#", "#", "+/+", "+/$b/c", "a/$b/#", "x/+/y", "+/#", "a/b/+"} {
 					emit(descBytes([]byte(f)) + " " + descBytes([]byte(t)))
 				}
 			}
@@ -279,6 +285,9 @@ func init() {
 		gen: func(rng *rand.Rand, tier string, n int, emit func(string)) {
 			emit("S:612f62 H:612f23 S:612f62 H:23 S:63 S:612f62")
 			emit("S:61 S:61 H:61 S:61 H:2b S:61 S:62 H:62 S:62")
+			// topics deeper than every registered filter, the deepest filters ending in + / #
+			emit("H:73706f72742f2b H:2b S:73706f72742f74656e6e69732f706c6179657231 S:612f62 S:73706f72742f74656e6e6973 H:2b2f2b2f23 S:612f62 S:612f622f632f64")
+			emit("H:2b2f2b S:61 S:612f62 S:612f622f63 S:612f622f632f64 S:2f2f2f")
 			deep := "612f622f632f642f652f662f672f682f69" // a/b/c/d/e/f/g/h/i (nine levels)
 			emit("H:" + deep + " H:612f622f632f642f652f662f672f682f2b H:612f622f632f642f652f662f672f2b S:" + deep + " S:612f622f632f642f652f662f672f68")
 			for i := 0; i < n; i++ {
